@@ -26,6 +26,9 @@ def run(ctx: Ctx):
     # degenerate result sets: zero records / one record
     res += pipe_common.explore(ctx, 4 if quick else 24, n_qry=3, with_readback=True, salt=1800, kinds=["junk", "tiny"])
     res += pipe_common.explore(ctx, 4 if quick else 24, n_qry=1, with_readback=True, salt=1801, kinds=["noisy", "mirror"])
+    # coordinates beyond 2^31 bp (reference-side values are handed to TLC rebased, see pipe_common.rebase_line)
+    res += pipe_common.explore(ctx, 1 if quick else 4, n_qry=2, with_readback=True, salt=1802, kinds=["far"],
+                               modes=["best", "separate"])
     lines, out, r = pipe_common.validate_records(ctx, res, "C18")
     nfiles = 0
     for rr in res:
